@@ -4,7 +4,8 @@ seed=$1; shift
 wt=/tmp/mut-$seed-$$
 git -C /repo worktree add -q --detach $wt HEAD || exit 9
 git -C $wt apply /verif/seeded/$seed/patch.diff || { git -C /repo worktree remove --force $wt; exit 9; }
-VERIF_REPO=$wt "$@"
+VERIF_REPO=$wt VERIF_EVIDENCE_DIR=/tmp/mut-evidence-$$ "$@"
 rc=$?
 git -C /repo worktree remove --force $wt
+rm -rf /tmp/mut-evidence-$$
 exit $rc
